@@ -69,10 +69,19 @@ def sf_twf(ex, st, t):
     val = d.vals[0]
     oi = vref(z3.Select(arr, i), "Obs")
     fl = feats(ex, st, oi)
+    # "the observations are pairwise distinct", in one of two equivalent forms: where the formula is a hypothesis, the
+    # Skolemised "some function maps every observation back to its index" (instantiated once per index term instead of
+    # once per pair of index terms); where it has to be proved, or the position is unknown, the pairwise form
+    pol, assumed = getattr(ex, "call_pol", 0), getattr(ex, "assumed", False)
+    if (assumed and pol == 1) or (not assumed and pol == -1):
+        w = z3.Function(uid("posw"), z3.IntSort(), z3.IntSort())
+        distinct = z3.ForAll([i], implies(and_(i >= 0, i < n), w(z3.Select(arr, i)) == i))
+    else:
+        distinct = z3.ForAll([i, j], implies(and_(i >= 0, i < j, j < n), z3.Select(arr, i) != z3.Select(arr, j)))
     return vbool(and_(
         n >= 0,
         z3.ForAll([i], implies(and_(i >= 0, i < n), fl.terms[0] == d.size)),
-        z3.ForAll([i, j], implies(and_(i >= 0, i < j, j < n), z3.Select(arr, i) != z3.Select(arr, j))),
+        distinct,
         z3.ForAll([k1], implies(z3.Select(d.dom, k1), and_(z3.Select(val, k1) >= 0, z3.Select(val, k1) < d.size,
                                                            not_(z_reserved(k1))))),
         z3.ForAll([k1, k2], implies(and_(z3.Select(d.dom, k1), z3.Select(d.dom, k2), k1 != k2),
@@ -225,14 +234,14 @@ def register(reg):
                           ("other-columns", ALLCOLS_SAME % "name"),
                           ("other-tracks", "all(implies(r != self, same(r.%s, old(r.%s))) for r in refs(Track))" % (DICO, DICO)),
                           ("other-observations", "all(implies(all(obs(self, i) != o for i in range(0, npts(self))), "
-                           "same(o.features, old(o.features))) for o in refs(Obs))")],
+                           "untouched(o, 'Obs.features')) for o in refs(Obs))")],
                  loops={"1": LoopSpec(inv=["False"]),      # list initialiser: excluded by the parameter kind (val_init is a float)
                         "2": LoopSpec(inv=[
                             "unchanged_except('Track.%s', self)" % DICO,
                             "all(len(obs(self, r).features) == old(nfeat(self)) + (1 if r < i else 0) for r in range(0, npts(self)))",
                             "all(same(cell(self, r, old(nfeat(self))), val_init) for r in range(0, i))",
                             "all(same(cell(self, r, c), old(cell(self, r, c))) for r in range(0, npts(self)) for c in range(0, old(nfeat(self))))",
-                            "all(implies(all(obs(self, q) != o for q in range(0, npts(self))), same(o.features, old(o.features))) for o in refs(Obs))"])}))
+                            "all(implies(all(obs(self, q) != o for q in range(0, npts(self))), untouched(o, 'Obs.features')) for o in refs(Obs))"])}))
 
 
     _more(reg)
@@ -271,7 +280,7 @@ def _more(reg):
                  ensures=[("wf", "twf(self)"),
                           ("no-evaluator-temporary-remains-listed", "all(implies(hasname(self, k), not first_is_hash(k)) for k in strs)")]),
             variant="expression")
-    OTHER_OBS = ("all(implies(all(obs(self, q) != o for q in range(0, npts(self))), same(o.features, old(o.features))) "
+    OTHER_OBS = ("all(implies(all(obs(self, q) != o for q in range(0, npts(self))), untouched(o, 'Obs.features')) "
                  "for o in refs(Obs))")
     OTHER_TRACKS = "all(implies(r != self, same(r.%s, old(r.%s))) for r in refs(Track))" % (DICO, DICO)
 
